@@ -240,7 +240,7 @@ func (w *world) exec(ctx context.Context, op Op) (e ev) {
 	case "PostBlob":
 		// single-POST upload (POST .../blobs/uploads/?digest=...): the client library never uses this
 		// path, so it is driven with a plain HTTP request against the stack's outermost server
-		if w.serverURL == "" {
+		if w.serverURL == "" || w.direct {
 			e["op"] = "skip"
 			break
 		}
